@@ -2834,7 +2834,7 @@ static void do_process(const int *rd, int nrd, const int *wr, int nwr,
   }
 }
 
-static void op_proc(int legacy)
+static int op_proc(int legacy, int only_if_events)
 {
   int   *rd = xmalloc(sizeof(int) * (G.nsocks + 1));
   int   *wr = xmalloc(sizeof(int) * (G.nsocks + 1));
@@ -2857,9 +2857,12 @@ static void op_proc(int legacy)
       wr[nwr++]   = (int)i;
     }
   }
-  do_process(rd, nrd, wr, nwr, legacy);
+  if (nrd + nwr > 0 || !only_if_events) {
+    do_process(rd, nrd, wr, nwr, legacy);
+  }
   free(rd);
   free(wr);
+  return nrd + nwr;
 }
 
 static void wait_reinit(void)
@@ -3413,7 +3416,7 @@ static void op_getsock(void)
   sb_puts(&sb, "GETSOCK r=[");
   first = 1;
   for (i = 0; i < ARES_GETSOCK_MAXNUM; i++) {
-    if (ARES_GETSOCK_READABLE(bits, i)) {
+    if (((unsigned int)bits >> i) & 1U) {
       sb_printf(&sb, "%ss%d", first ? "" : ",", (int)socks[i] - FD_BASE);
       first = 0;
     }
@@ -3421,7 +3424,8 @@ static void op_getsock(void)
   sb_puts(&sb, "] w=[");
   first = 1;
   for (i = 0; i < ARES_GETSOCK_MAXNUM; i++) {
-    if (ARES_GETSOCK_WRITABLE(bits, i)) {
+    /* not ARES_GETSOCK_WRITABLE(): for i == 15 the macro shifts 1 << 31 */
+    if (((unsigned int)bits >> (i + ARES_GETSOCK_MAXNUM)) & 1U) {
       sb_printf(&sb, "%ss%d", first ? "" : ",", (int)socks[i] - FD_BASE);
       first = 0;
     }
@@ -3484,7 +3488,7 @@ static int needs_channel(const char *op)
 {
   static const char *ops[] = { "cancel",  "destroy",  "reinit",  "setservers",
                                "setsortlist", "tmo",   "proc",    "proct",
-                               "procfd",  "procsel",  "flushwrites", "fds",
+                               "procfd",  "procsel",  "flushwrites", "fds", "run",
                                "getsock", "qlen",     "servers", "opts",
                                "setlocalip4", "setlocalip6", "setlocaldev",
                                NULL };
@@ -3500,7 +3504,7 @@ static int needs_channel(const char *op)
 static int forbidden_in_cb(const char *op)
 {
   static const char *ops[] = { "destroy", "proc",        "proct", "procfd",
-                               "procsel", "flushwrites", "oncb",  "reinit",
+                               "procsel", "flushwrites", "oncb",  "reinit", "run",
                                NULL };
   int                i;
   for (i = 0; ops[i]; i++) {
@@ -3648,9 +3652,21 @@ static void exec_op(const char *optext, int in_cb)
          r == &maxtv ? " ret=max" : (r == &tv ? "" : " ret=?"));
     }
   } else if (strcmp(op, "proc") == 0) {
-    op_proc(0);
+    op_proc(0, 0);
   } else if (strcmp(op, "procsel") == 0) {
-    op_proc(1);
+    op_proc(1, 0);
+  } else if (strcmp(op, "run") == 0) {
+    long max = 200;
+    long n   = 0;
+    if (argc > 2 || (argc == 2 && (!parse_long(argv[1], &max) || max < 0 ||
+                                   max > 100000))) {
+      ev("BADOP args: %s", optext);
+      goto done;
+    }
+    while (n < max && G.channel != NULL && op_proc(0, 1) > 0) {
+      n++;
+    }
+    ev("RUN iterations=%ld%s", n, n == max ? " LIMIT" : "");
   } else if (strcmp(op, "proct") == 0) {
     do_process(NULL, 0, NULL, 0, 0);
   } else if (strcmp(op, "procfd") == 0) {
